@@ -1809,7 +1809,8 @@ BTree_rangeSearch(BTree *self, PyObject *args, PyObject *kw, char type)
     /* The buckets differ, or they're the same and the offsets show a non-
     * empty range.
     */
-    if (min != Py_None && max != Py_None && /* both args user-supplied */
+    if ((min != Py_None || excludemin) &&   /* both ends were moved off */
+        (max != Py_None || excludemax) &&   /* the extremes of the tree */
         lowbucket != highbucket)   /* and different buckets */
     {
         KEY_TYPE first;
